@@ -64,7 +64,7 @@ class LinearRegression:
             self.x = np.array(self.x)
         
         if type(self.y) == list:
-            self.y = np.array(self.x)    
+            self.y = np.array(self.y)
                 
         if self.reject_outlier:
             self._result = self._generate_result_and_reject_outlier()
